@@ -24,7 +24,7 @@ one() {
   if ! (cd $S/repo && patch -p1 -s --no-backup-if-mismatch < "$patch"); then echo "SELFTEST $prop $(basename $patch): PATCH-FAILED"; return 3; fi
   if ! (cd $S/harness && cargo build --offline >$S/build.log 2>&1); then tail -20 $S/build.log; echo "SELFTEST $prop $(basename $patch): BUILD-FAILED"; return 3; fi
   local t0=$(date +%s)
-  $S/target/debug/cvh run $prop --tier $tier --seed ${VERIF_SEED:-0} --root $S/out > $S/run.log 2>&1
+  CVH_HARNESS=$S/harness $S/target/debug/cvh run $prop --tier $tier --seed ${VERIF_SEED:-0} --root $S/out > $S/run.log 2>&1
   local code=$?
   local t1=$(date +%s)
   local v=$(grep -m1 '^violation:' $S/run.log | cut -c1-220)
@@ -35,8 +35,28 @@ one() {
   esac
   return $code
 }
+# many <patch> <Cxx> <Cyy> ... : one build, several checks
+many() {
+  local patch=$1; shift
+  prep
+  if ! (cd $S/repo && patch -p1 -s --no-backup-if-mismatch < "$patch"); then echo "SELFTEST $(basename $patch): PATCH-FAILED"; return 3; fi
+  if ! (cd $S/harness && cargo build --offline >$S/build.log 2>&1); then tail -20 $S/build.log; echo "SELFTEST $(basename $patch): BUILD-FAILED"; return 3; fi
+  for prop in "$@"; do
+    local t0=$(date +%s)
+    CVH_HARNESS=$S/harness $S/target/debug/cvh run $prop --tier ${TIER:-quick} --seed ${VERIF_SEED:-0} --root $S/out > $S/run.log 2>&1
+    local code=$?
+    local t1=$(date +%s)
+    local v=$(grep -m1 '^violation:' $S/run.log | cut -c1-220)
+    case $code in
+      1) echo "SELFTEST $prop $(basename $(dirname $patch))/$(basename $patch): CAUGHT in $((t1-t0))s — $v";;
+      0) echo "SELFTEST $prop $(basename $(dirname $patch))/$(basename $patch): MISSED (exit 0)";;
+      *) echo "SELFTEST $prop $(basename $(dirname $patch))/$(basename $patch): INCONCLUSIVE (exit $code) $(tail -2 $S/run.log | tr '\n' ' ' | cut -c1-200)";;
+    esac
+  done
+}
 case "${1:-}" in
   one) one "$(realpath $2)" $3 ${4:-quick};;
+  many) p="$(realpath $2)"; shift 2; many "$p" "$@";;
   all)
     for p in /verif/mutants/C*-*.patch; do
       [ -f "$p" ] || continue
